@@ -541,11 +541,11 @@ func runC09Stress(cfg c09Stress) (violation string, loads, writes, cancelled int
 // RunC09 runs the scenarios of one shard.
 func RunC09(col *core.Collector, tier, variant string, seed uint64, shard, nshards int, replayDir, outBase string) {
 	col.Note("rule: enumerated scenarios (load kind x write kind x write position, loader and the load.beforeInstall yield point used as control points) plus jittered stress in which writers fire only while a loader for their key is inside; non-trivial = the write was effective and was called after the loader entry (scenario) / at least one load was discarded by a write (stress); distinct = scenario tuple + repetition / hash of the stress history")
-	reps := 3
-	stressN := 300
+	reps := 8
+	stressN := 1500
 	if tier == "thorough" {
-		reps = 40
-		stressN = 8000
+		reps = 120
+		stressN = 40000
 	}
 	if variant != "plain" {
 		reps = max(1, reps/3)
